@@ -4,14 +4,15 @@
 package lockmap
 
 import (
-	"os"
 	"bytes"
 	"context"
 	"fmt"
+	"os"
 	"runtime"
 	"sort"
 	"strconv"
 	"sync"
+	"sync/atomic"
 	"time"
 
 	"github.com/fullstorydev/emulators/storage/gcsutil"
@@ -60,7 +61,7 @@ type proc struct {
 	gate      chan struct{}
 	arrived   chan string // "call" (at the call gate), a parking hook name, or "exit"
 	calls     chan Step
-	cancel    context.CancelFunc
+	cancel    atomic.Pointer[context.CancelFunc] // set by the goroutine for the duration of its Lock call; whoever cancels swaps it out
 	key       string
 	parked    bool   // waiting at a gate (call gate or parking hook)
 	atGate    bool   // ... and that gate is the call gate (between calls)
@@ -167,10 +168,10 @@ func (r *runner) body(p *proc) {
 			case "lock":
 				ctx, cancel := context.WithCancel(context.Background())
 				defer cancel()
-				p.cancel = cancel
+				p.cancel.Store(&cancel)
 				r.log(p, Event{Pt: "call.Lock", K: st.K})
 				ok := r.lm.Lock(ctx, st.K)
-				p.cancel = nil // the call is over: nothing left to cancel
+				p.cancel.Store(nil) // the call is over: nothing left to cancel
 				if ok {
 					p.holding = st.K
 				}
@@ -302,10 +303,10 @@ func Execute(id int, sched []Step, procNames []string, wait time.Duration, probe
 				release(p, "step")
 			}
 		case "cancel":
-			if p.cancel != nil && !p.atGate {
+			if cf := p.cancel.Load(); cf != nil && !p.atGate {
+				p.cancel.Store(nil)
 				r.log(p, Event{Pt: "cancel", K: p.key})
-				p.cancel()
-				p.cancel = nil
+				(*cf)()
 				// a goroutine blocked in its select wakes up on its own; give it a moment to reach its next point
 				if !p.parked {
 					select {
@@ -350,10 +351,10 @@ func Execute(id int, sched []Step, procNames []string, wait time.Duration, probe
 			drain()
 			for _, n := range procNames {
 				p := r.procs[n]
-				if !p.parked && p.cancel != nil {
+				if cf := p.cancel.Load(); !p.parked && cf != nil {
+					p.cancel.Store(nil)
 					r.log(p, Event{Pt: "cancel", K: p.key})
-					p.cancel()
-					p.cancel = nil
+					(*cf)()
 					select {
 					case pt := <-p.arrived:
 						p.parked, p.atGate, p.at = true, pt == "call", pt
